@@ -96,8 +96,8 @@ def rule_b(ctx):
             _, pts, wts = row
             ok = len(pts) == len(wts) and all(w > 0 for w in wts) and abs(sum(wts) - 1) < c15.TOL
             mom = all(abs(sum(w * p[i] for p, w in zip(pts, wts)) - Decimal("0.5")) < c15.TOL for i in range(dim)) if len(pts) == len(wts) else False
-            ctx.ob(R, td.qname, f"{label}: positive weights of total 1 with as many points", ok, f"{len(pts)} pts {len(wts)} wts sum {sum(wts):.6f}", node)
-            ctx.ob(R, td.qname, f"{label}: integrates linear functions exactly", mom, "", node)
+            ctx.ob(R, td.qname, f"{label}: positive weights of total 1 with as many points", ok, f"{len(pts)} pts {len(wts)} wts sum {sum(wts):.6f}", node, evidence=True)
+            ctx.ob(R, td.qname, f"{label}: integrates linear functions exactly", mom, "first moments of the folded rule differ from 1/2", node, evidence=len(pts) == len(wts))
     ctx.floor(R, 9)
     # integrand and total
     ncalls = [c for c in ast.walk(td.node) if isinstance(c, ast.Call) and norm(c.func) == "np.linalg.norm"]
